@@ -299,8 +299,10 @@ pub fn c14(tier: &str, seed: u64) -> Vec<Case> {
                 let mut reply = None;
                 if let Ok(packet) = Packet::parse(&dd) {
                     if packet.has_flags(PacketFlag::RESPONSE) {
-                        let (tx, _rx) = std::sync::mpsc::channel();
+                        // no channel, a channel whose receiver is alive, a channel the application has dropped its end of
+                        let (tx, rx) = std::sync::mpsc::channel();
                         let mut ch = if dd.len() % 2 == 0 { Some(tx) } else { None };
+                        let _kept = if dd.len() % 4 == 0 { drop(rx); None } else { Some(rx) };
                         sync_add_response_to_resources(packet, &sname, &fname, &mut store, &mut ch);
                     } else {
                         reply = match build_reply(packet, &store) { Some((rp, _)) => rp.build_bytes_vec_compressed().ok(), None => None };
@@ -328,7 +330,8 @@ pub fn c14(tier: &str, seed: u64) -> Vec<Case> {
                 let mut store2: ResourceRecordManager<'static> = ResourceRecordManager::new();
                 store2.add_authoritative_resource(ptr2);
                 // with and without an on_discovery channel (roomy, so that nothing waits); the receiver stays alive
-                let (tx, _rx) = tokio::sync::mpsc::channel::<InstanceInformation>(64);
+                let (tx, rx) = tokio::sync::mpsc::channel::<InstanceInformation>(64);
+                let _kept = if dd2.len() % 4 == 1 { drop(rx); None } else { Some(rx) };
                 rt.block_on(async { let mut ch = if dd2.len() % 3 != 0 { Some(tx) } else { None }; simple_mdns::verif::async_add_response_to_resources(packet, &sn2, &fn2, &mut store2, &mut ch).await; });
                 Some(sorted(store2.get_domain_resources(&sn2, DomainResourceFilter::cached()).flatten().map(text::rr).collect()))
             }));
@@ -1116,6 +1119,94 @@ async fn live_pair_tokio() -> Case {
     c.tag("sockets-alive")
 }
 
+/// C13 on the running responders: what `build_reply` includes is what goes out. A responder holding an IPv4 address, an
+/// IPv6 address, a TXT record, an SRV record (whose target owns the addresses) and a record of another class is asked
+/// (unicast reply requested) for ANY, for AAAA, for SRV and for a name it does not own; the reply on the wire carries
+/// exactly the registered records that match - both flavours.
+pub fn live_responder_answers() -> Vec<Case> {
+    use std::net::UdpSocket;
+    use std::time::{Duration, Instant};
+    fn records(name: &Name<'static>) -> Vec<ResourceRecord<'static>> {
+        vec![
+            ResourceRecord::new(name.clone(), CLASS::IN, 120, RData::A(A { address: 0x0A010203 })),
+            ResourceRecord::new(name.clone(), CLASS::IN, 120, RData::AAAA(simple_dns::rdata::AAAA { address: (0xFD00u128 << 112) + 0x23 })),
+            ResourceRecord::new(name.clone(), CLASS::IN, 120, RData::TXT(TXT::new().with_string("k=v").unwrap())),
+            ResourceRecord::new(name.clone(), CLASS::IN, 120, RData::SRV(simple_dns::rdata::SRV { priority: 0, weight: 0, port: 8300, target: name.clone() })),
+            ResourceRecord::new(name.clone(), CLASS::CH, 120, RData::TXT(TXT::new().with_string("chaos").unwrap())),
+        ]
+    }
+    fn judge(flavour: &str, name: &Name<'static>, sock: &UdpSocket) -> Case {
+        let mut c = Case::oracle_only().tag("live-responder-answers");
+        let dest = "224.0.0.251:5353";
+        let regs = records(name);
+        let ask = |qt: QTYPE, qn: &Name<'static>, id: u16| -> Option<(Vec<ResourceRecord<'static>>, Vec<ResourceRecord<'static>>)> {
+            let mut q = Packet::new_query(id);
+            q.questions.push(Question::new(qn.clone(), qt, CLASS::IN.into(), true));
+            let bytes = q.build_bytes_vec().unwrap();
+            for _ in 0..5 {
+                let _ = sock.send_to(&bytes, dest);
+                let deadline = Instant::now() + Duration::from_millis(400);
+                let mut buf = [0u8; 9000];
+                while Instant::now() < deadline {
+                    if let Ok((n, _)) = sock.recv_from(&mut buf) {
+                        if let Ok(p) = Packet::parse(&buf[..n]) { if p.id() == id && p.has_flags(PacketFlag::RESPONSE) { return Some((p.answers.iter().map(|r| r.clone().into_owned()).collect(), p.additional_records.iter().map(|r| r.clone().into_owned()).collect())); } }
+                    }
+                }
+            }
+            None
+        };
+        let base = ask(QTYPE::TYPE(TYPE::A), name, 0x1301);
+        if base.is_none() { return c.tag("sockets-not-exercised"); }
+        let same = |r: &ResourceRecord, x: &ResourceRecord| r.name == x.name && r.class == x.class && r.rdata == x.rdata;
+        for (what, qt, id) in [("ANY", QTYPE::ANY, 0x1302u16), ("AAAA", QTYPE::TYPE(TYPE::AAAA), 0x1303), ("SRV", QTYPE::TYPE(TYPE::SRV), 0x1304), ("TXT", QTYPE::TYPE(TYPE::TXT), 0x1305)] {
+            let want: Vec<&ResourceRecord> = regs.iter().filter(|r| r.class == CLASS::IN && r.match_qtype(qt)).collect();
+            match ask(qt, name, id) {
+                None => { c = c.fail("reply-missing", format!("{} responder: a question for {} of a name holding {} matching records gets no reply on the wire (a question for A does)", flavour, what, want.len())); }
+                Some((answers, additional)) => {
+                    for w in &want { if !answers.iter().any(|x| same(w, x)) { c = c.fail("answer-missing", format!("{} responder: the reply to a question for {} lacks the registered {:?} record", flavour, what, w.rdata.type_code())); } }
+                    for x in &answers { if !want.iter().any(|w| same(w, x)) { c = c.fail("answer-not-asked", format!("{} responder: the reply to a question for {} carries a {:?} record that does not match", flavour, what, x.rdata.type_code())); } }
+                    if what == "SRV" {
+                        for w in regs.iter().filter(|r| r.class == CLASS::IN && matches!(r.rdata, RData::A(_) | RData::AAAA(_))) {
+                            if !additional.iter().any(|x| same(w, x)) { c = c.fail("additional-missing", format!("{} responder: the reply to the SRV question lacks the target's {:?} record among the additional records", flavour, w.rdata.type_code())); }
+                        }
+                    }
+                }
+            }
+        }
+        if c.oracle_fail.is_none() { c = c.tag("sockets-alive"); }
+        c
+    }
+    let sync_case = std::thread::spawn(move || -> Case {
+        use simple_mdns::sync_discovery::SimpleMdnsResponder;
+        let name = Name::new_unchecked("verif-c13s._tcp.local").into_owned();
+        let mut responder = SimpleMdnsResponder::new(10);
+        for r in records(&name) { responder.add_resource(r); }
+        std::thread::sleep(Duration::from_millis(300));
+        let sock = match UdpSocket::bind("0.0.0.0:0") { Ok(s) => s, Err(_) => return Case::oracle_only().tag("live-responder-answers").tag("sockets-not-exercised") };
+        sock.set_read_timeout(Some(Duration::from_millis(200))).ok();
+        judge("sync", &name, &sock)
+    });
+    let tokio_case = std::thread::spawn(move || -> Case {
+        use simple_mdns::async_discovery::SimpleMdnsResponder;
+        let rt = match tokio::runtime::Builder::new_current_thread().enable_all().build() { Ok(r) => r, Err(_) => return Case::oracle_only().tag("live-responder-answers").tag("sockets-not-exercised") };
+        let name = Name::new_unchecked("verif-c13t._tcp.local").into_owned();
+        let _guard = rt.enter();
+        let mut responder = SimpleMdnsResponder::new(10);
+        rt.block_on(async { for r in records(&name) { responder.add_resource(r).await; } tokio::time::sleep(Duration::from_millis(300)).await; });
+        let sock = match UdpSocket::bind("0.0.0.0:0") { Ok(s) => s, Err(_) => return Case::oracle_only().tag("live-responder-answers").tag("sockets-not-exercised") };
+        sock.set_read_timeout(Some(Duration::from_millis(50))).ok();
+        // the responder's task runs on this runtime: drive it from a helper thread while the judge blocks on the socket
+        let (tx, rx) = std::sync::mpsc::channel::<()>();
+        let name2 = name.clone();
+        let judge_thread = std::thread::spawn(move || { let c = judge("tokio", &name2, &sock); let _ = tx.send(()); c });
+        rt.block_on(async { while rx.try_recv().is_err() { tokio::time::sleep(Duration::from_millis(10)).await; } });
+        judge_thread.join().unwrap_or_else(|_| Case::oracle_only().tag("live-responder-answers").fail("reply-missing", "the live tokio responder case panicked".into()))
+    });
+    let mut out = vec![];
+    for h in [sync_case, tokio_case] { out.push(h.join().unwrap_or_else(|_| Case::oracle_only().tag("live-responder-answers").fail("reply-missing", "the live responder case panicked".into()))); }
+    out
+}
+
 /// C20 on the running services: a record received with TTL 8 within the listener's first second is still known 6 s later,
 /// whatever the background refresh (which first wakes 5 s after start-up, when the record is past its refresh point of
 /// half the TTL) does in between - both flavours
@@ -1498,10 +1589,25 @@ pub fn c15(tier: &str, seed: u64) -> Vec<Case> {
         if later != (0, 0) { c = c.fail("goodbye-ignored", format!("1.3 s after a goodbye with the cache-flush bit the instance is still known (sync {}, tokio {})", later.0, later.1)); }
         v.push(c);
     }
+    // every single character of the first planes, alone and between two letters
+    for cp in (0u32..0x300).chain([0x2028, 0xFFFD, 0xFFFF, 0x1F600]) {
+        if let Some(ch) = char::from_u32(cp) {
+            for s in [ch.to_string(), format!("a{}b", ch), format!("{}7", ch), format!("\\{}", ch)] {
+                let esc = InstanceInformation::new(s.clone()).escaped_instance_name();
+                let back = InstanceInformation::new(esc.clone()).unescaped_instance_name();
+                let mut c = Case::new(format!("escape {}", text::hex(s.as_bytes())), text::hex(esc.as_bytes())).tag("escape").tag("escape-sweep");
+                if back != s { c = c.fail("escape-roundtrip", format!("{:?} -> {:?} -> {:?}", s, esc, back)); }
+                v.push(c);
+            }
+        }
+    }
     // escaping then unescaping an instance name returns the original
     for _ in 0..(if thorough { 20000 } else { 2000 }) {
         let len = r.below(10) as usize;
-        let s: String = (0..len).map(|_| *r.pick(&['a', '.', '\\', 'é', ' ', '\u{13B}', 'z', '-'])).collect();
+        // the escape characters and plain text mostly; every third string over everything a name can hold - digits (what a
+        // `\DDD` scheme would read back), control characters, DEL, NUL, quotes, other scripts, an emoji
+        let s: String = if r.chance(1, 3) { (0..len).map(|_| *r.pick(&['\t', '\n', '\r', '\0', '\u{7f}', '\u{1}', '\u{1b}', '0', '1', '2', '9', '7', '\\', '.', '"', '\'', '%', 'x', 'ß', '日', '\u{1F600}', '\u{202e}'])).collect() }
+            else { (0..len).map(|_| *r.pick(&['a', '.', '\\', 'é', ' ', '\u{13B}', 'z', '-'])).collect() };
         let esc = InstanceInformation::new(s.clone()).escaped_instance_name();
         let back = InstanceInformation::new(esc.clone()).unescaped_instance_name();
         let mut c = Case::new(format!("escape {}", text::hex(s.as_bytes())), text::hex(esc.as_bytes())).tag("escape");
